@@ -761,6 +761,13 @@ class TrueTypeFont:
             pass
 
     def create_unicode_map(self) -> FileUnicodeMap:
+        try:
+            return self._create_unicode_map()
+        except struct.error:
+            # truncated or corrupted cmap table
+            raise TrueTypeFont.CMapNotFound
+
+    def _create_unicode_map(self) -> FileUnicodeMap:
         if b"cmap" not in self.tables:
             raise TrueTypeFont.CMapNotFound
         (base_offset, length) = self.tables[b"cmap"]
